@@ -6,6 +6,7 @@ import (
 	"fmt"
 	"os"
 	"path/filepath"
+	"sort"
 	"strconv"
 	"strings"
 	"sync"
@@ -72,7 +73,8 @@ type c04Binding struct { // a schedule binding
 	Crontab string
 	AF      bool
 	Group   int
-	CfgName string // the `name:` of the configuration: "" = Name, "-" = no name (default name "schedule"), else a name other bindings may share
+	CfgName string   // the `name:` of the configuration: "" = Name, "-" = no name (default name "schedule"), else a name other bindings may share
+	Snaps   []string // includeSnapshotsFrom: names of kubernetes bindings of the hook (unambiguous ones)
 }
 
 // c04CfgName is the binding name the operator uses (binding names need not be unique).
@@ -101,8 +103,10 @@ type c04KBinding struct { // a kubernetes binding (ConfigMaps labelled verif=<Na
 	Name    string // unique key: namespace and label of the binding's objects
 	AF      bool
 	Group   int
-	EOS     bool   // executeHookOnSynchronization
-	CfgName string // see c04Binding.CfgName (default name "kubernetes")
+	EOS     bool     // executeHookOnSynchronization
+	CfgName string   // see c04Binding.CfgName (default name "kubernetes")
+	Snaps   []string // includeSnapshotsFrom (see c04Binding.Snaps)
+	Jq      bool     // jqFilter: ".data" — the hook is shown a filterResult next to every object
 }
 
 type c04Hook struct {
@@ -169,6 +173,9 @@ func (h c04Hook) script(dir, ns string) string {
 			if bd.Group != 0 {
 				fmt.Fprintf(&b, "  group: %s\n", c04GroupName(bd.Group))
 			}
+			if len(bd.Snaps) > 0 {
+				fmt.Fprintf(&b, "  includeSnapshotsFrom: [%s]\n", strings.Join(bd.Snaps, ", "))
+			}
 		}
 	}
 	if len(h.KBindings) > 0 {
@@ -182,6 +189,12 @@ func (h c04Hook) script(dir, ns string) string {
 			if kb.Group != 0 {
 				fmt.Fprintf(&b, "  group: %s\n", c04GroupName(kb.Group))
 			}
+			if len(kb.Snaps) > 0 {
+				fmt.Fprintf(&b, "  includeSnapshotsFrom: [%s]\n", strings.Join(kb.Snaps, ", "))
+			}
+			if kb.Jq {
+				b.WriteString("  jqFilter: \".data\"\n")
+			}
 		}
 	}
 	b.WriteString("EOF\nexit 0\nfi\n")
@@ -194,6 +207,7 @@ func (h c04Hook) body(dir string) string {
 	fmt.Fprintf(&b, "D=%q\nH=%q\n", dir, h.Name)
 	b.WriteString(`n=$(cat "$D/count.$H" 2>/dev/null || echo 0); n=$((n+1)); echo $n > "$D/count.$H"
 ctx=$(jq -c '[.[] | [.binding, (.type // "-"), (.groupName // "-")]]' "$BINDING_CONTEXT_PATH")
+cp "$BINDING_CONTEXT_PATH" "$D/ctx.$H.$n"
 mkfifo "$D/gate.$H.$n"
 printf 'start\t%s\t%s\t%s\t%s\n' "$H" "$n" "$(date +%s%N)" "$ctx" >> "$D/log"
 read -r mode < "$D/gate.$H.$n"
@@ -266,6 +280,7 @@ type c04Running struct {
 	start c04Start
 	kind  string // exec | norun | noexec
 	ret   *c04Ret
+	pay   string // what the context file carried, per context (see hookPayload)
 }
 
 type c04World struct {
@@ -278,6 +293,7 @@ type c04World struct {
 	cancel context.CancelFunc
 	tasks  *Interner // task uuid → number
 	binds  *Interner // binding name → number
+	pays   *Interner // payload parts of the context files (watch event, object + filterResult, snapshot entry) → number
 	known  map[string]bool
 	boInit time.Duration
 	boStep time.Duration
@@ -355,13 +371,13 @@ func (w *c04World) configure(q *queue.TaskQueue) {
 	}
 }
 
-func newC04World(c *Case, r *Run, hooks []c04Hook, boInit, boStep time.Duration, realBo bool) (*c04World, error) {
+func newC04World(c *Case, r *Run, hooks []c04Hook, boInit, boStep time.Duration, realBo bool, preObjs ...int) (*c04World, error) {
 	dir := filepath.Join(r.Scratch, fmt.Sprintf("c04-%d", c.Idx))
 	if err := os.MkdirAll(filepath.Join(dir, "hooks"), 0o755); err != nil {
 		return nil, err
 	}
 	_ = os.MkdirAll(filepath.Join(dir, "tmp"), 0o755)
-	w := &c04World{c: c, dir: dir, hooks: hooks, tasks: NewInterner(), binds: NewInterner(), known: map[string]bool{},
+	w := &c04World{c: c, dir: dir, hooks: hooks, tasks: NewInterner(), binds: NewInterner(), pays: NewInterner(), known: map[string]bool{},
 		boInit: boInit, boStep: boStep, realBo: realBo, boCalls: map[string][]c04BoCall{},
 		entries: map[string]chan c04Entry{}, rets: map[string]chan c04Ret{}, lastFail: map[int]*c04BoCall{}, running: map[int]*c04Running{}}
 	// informer factories are shared process-wide by (resource, namespace, selector): one namespace per case
@@ -382,6 +398,18 @@ func newC04World(c *Case, r *Run, hooks []c04Hook, boInit, boStep time.Duration,
 	for _, h := range hooks {
 		for _, kb := range h.KBindings {
 			w.fc.CreateNs(w.ns + "-" + kb.Name)
+		}
+	}
+	for _, h := range hooks {
+		for _, kb := range h.KBindings {
+			for i := 0; len(preObjs) > 0 && i < preObjs[0]; i++ {
+				m := manifest.MustFromYAML(fmt.Sprintf("apiVersion: v1\nkind: ConfigMap\nmetadata:\n  name: pre-%d\n  namespace: %s-%s\n  labels:\n    verif: %s\ndata:\n  p: \"%d\"\n",
+					i, w.ns, kb.Name, kb.Name, i))
+				if err := w.fc.Create(w.ns+"-"+kb.Name, m); err != nil {
+					cancel()
+					return nil, err
+				}
+			}
 		}
 	}
 	w.fc.CreateNs(w.ns + "-out") // where generated patch files create their objects
@@ -512,6 +540,104 @@ func (w *c04World) hookCtxs(js string) string {
 		return "-"
 	}
 	return strings.Join(ss, ";")
+}
+
+// c04Canon is the JSON value with sorted keys ("<absent>" when the member is missing).
+func c04Canon(raw json.RawMessage) string {
+	if raw == nil {
+		return "<absent>"
+	}
+	var v interface{}
+	if err := json.Unmarshal(raw, &v); err != nil {
+		return "<unparsable>"
+	}
+	b, _ := json.Marshal(v)
+	return string(b)
+}
+
+// hookPayload is what the hook process received besides binding / type / group, read from the copy
+// the hook made of its context file: per context `<ev>/<objs>/<snaps>`, each a list of interned
+// numbers. ev = watch event, then object + filterResult (an Event with `"object": null` has only the
+// first; no Event members at all: `-`); objs = the members of `objects` (object + filterResult);
+// snaps = the `snapshots` member: one number for the member itself, one per key, one per entry.
+func (w *c04World) hookPayload(hook string, n int) string {
+	b, err := os.ReadFile(filepath.Join(w.dir, fmt.Sprintf("ctx.%s.%d", hook, n)))
+	if err != nil {
+		return "unreadable"
+	}
+	var raw []map[string]json.RawMessage
+	if err := json.Unmarshal(b, &raw); err != nil {
+		return "unparsable"
+	}
+	w.imu.Lock()
+	defer w.imu.Unlock()
+	list := func(xs []int, sorted bool) string {
+		if sorted {
+			sort.Ints(xs)
+		}
+		if len(xs) == 0 {
+			return "-"
+		}
+		return joinInts(xs)
+	}
+	var res []string
+	for _, m := range raw {
+		var ev, objs, snaps []int
+		_, hasObj := m["object"]
+		_, hasWE := m["watchEvent"]
+		_, hasFR := m["filterResult"]
+		if hasObj || hasWE || hasFR {
+			ev = append(ev, w.pays.Id("we|"+c04Canon(m["watchEvent"])))
+			if o := c04Canon(m["object"]); o != "null" && o != "<absent>" {
+				ev = append(ev, w.pays.Id("o|"+o+"|"+c04Canon(m["filterResult"])))
+			}
+		}
+		if r, has := m["objects"]; has {
+			var els []json.RawMessage
+			if json.Unmarshal(r, &els) != nil {
+				objs = append(objs, w.pays.Id("objects|"+c04Canon(r)))
+			}
+			for _, el := range els {
+				objs = append(objs, w.pays.Id("o|"+c04Canon(el)))
+			}
+		}
+		if r, has := m["snapshots"]; has {
+			snaps = append(snaps, w.pays.Id("s|"))
+			var keys map[string][]json.RawMessage
+			if json.Unmarshal(r, &keys) != nil {
+				snaps = append(snaps, w.pays.Id("snapshots|"+c04Canon(r)))
+			}
+			var ks []string
+			for k := range keys {
+				ks = append(ks, k)
+			}
+			sort.Strings(ks)
+			for _, k := range ks {
+				els := keys[k]
+				snaps = append(snaps, w.pays.Id("s|"+k))
+				for _, el := range els {
+					snaps = append(snaps, w.pays.Id("s|"+k+"|"+c04Canon(el)))
+				}
+			}
+		}
+		res = append(res, list(ev, false)+"/"+list(objs, true)+"/"+list(snaps, true))
+		if len(ev) > 1 {
+			w.c.Note("shown:event-with-object")
+		}
+		if hasFR {
+			w.c.Note("shown:filterResult")
+		}
+		if len(objs) > 0 {
+			w.c.Note("shown:synchronization-with-objects")
+		}
+		if len(snaps) > 2 {
+			w.c.Note("shown:snapshots-with-objects")
+		}
+	}
+	if len(res) == 0 {
+		return "-"
+	}
+	return strings.Join(res, ";")
 }
 
 func (w *c04World) readStarts() []c04Start {
@@ -733,6 +859,7 @@ func (w *c04World) begin(qn int) string {
 	}
 	run.kind = "exec"
 	run.hook, _ = w.hookByName(run.start.hook)
+	run.pay = w.hookPayload(run.start.hook, run.start.n)
 	now := w.snapQueue(w.op.TaskQueues.GetByName(qname))
 	w.c.Op(fmt.Sprintf("begin q=%d", qn), fmt.Sprintf("exec task=%d hook=%d ctxs=%s queue=%s", id, run.hook.Num, w.hookCtxs(run.start.ctxs), w.snapIds(now)))
 	gap := int64(0)
@@ -740,7 +867,7 @@ func (w *c04World) begin(qn int) string {
 		// from the back-off call after the failed attempt to the worker entering the handler again
 		gap = ent.at.Sub(lf.at).Nanoseconds()
 	}
-	w.c.Oracle(fmt.Sprintf("begin q=%d task=%d gap=%d ctxs=%s", qn, id, gap, w.hookCtxs(run.start.ctxs)))
+	w.c.Oracle(fmt.Sprintf("begin q=%d task=%d gap=%d ctxs=%s pay=%s", qn, id, gap, w.hookCtxs(run.start.ctxs), run.pay))
 	if w.onExec != nil {
 		w.onExec(qn, id, ent.pre, now, run)
 	}
@@ -856,8 +983,8 @@ func (w *c04World) end(qn int, mode string, out *c04Out) string {
 		fc = run.real.GetFailureCount()
 	}
 	if run.kind == "exec" {
-		w.c.Oracle(fmt.Sprintf("end q=%d %s task=%d ctxs=%s sleep=%d after=%s s0=0", qn, ok, id, w.hookCtxs(run.start.ctxs),
-			bo.delay.Nanoseconds(), afterS))
+		w.c.Oracle(fmt.Sprintf("end q=%d %s task=%d ctxs=%s sleep=%d after=%s s0=0 pay=%s", qn, ok, id, w.hookCtxs(run.start.ctxs),
+			bo.delay.Nanoseconds(), afterS, run.pay))
 	}
 	w.c.Op(fmt.Sprintf("end q=%d %s", qn, ok), fmt.Sprintf("status=%s fc=%d sleep=%d queue=%s", status, fc,
 		bo.delay.Nanoseconds(), w.snapIds(afterSnaps)))
@@ -912,6 +1039,7 @@ type c04Plan struct {
 	maxSteps   int
 	onExec     func(w *c04World, qn, id int, pre, now []c04Snap, run *c04Running) // see c04World.onExec
 	cancels    func(qn int, step int) int                                         // CancelTaskDelay() calls on the queue while a run is blocked (handler running)
+	preObjs    int                                                                // ConfigMaps that exist per kubernetes binding before the operator starts (Synchronization runs and snapshots then carry objects)
 }
 
 func (w *c04World) fire(p c04Plan, e c04Ev) bool {
@@ -923,7 +1051,7 @@ func (w *c04World) fire(p c04Plan, e c04Ev) bool {
 }
 
 func c04Execute(c *Case, r *Run, p c04Plan) {
-	w, err := newC04World(c, r, p.hooks, p.boInit, p.boStep, p.realBo)
+	w, err := newC04World(c, r, p.hooks, p.boInit, p.boStep, p.realBo, p.preObjs)
 	if err != nil {
 		c.Op("assemble", "error "+firstLine(err.Error()))
 		return
@@ -1105,6 +1233,45 @@ func c04GenHooks(rng *Rng, nh int, kube bool) []c04Hook {
 				}
 			}
 		}
+		// what the hook is shown besides binding / type / group: snapshots of other bindings
+		// (includeSnapshotsFrom of ungrouped schedule / kubernetes bindings; the names must be unambiguous
+		// among the kubernetes bindings — grouped bindings get their group's list from the operator) and a
+		// filterResult next to every object (jqFilter)
+		if !h.V0 && len(h.KBindings) > 0 {
+			cnt := map[string]int{}
+			for _, kb := range h.KBindings {
+				cnt[kb.bname()]++
+			}
+			var uniq []string
+			for _, kb := range h.KBindings {
+				if cnt[kb.bname()] == 1 {
+					uniq = append(uniq, kb.bname())
+				}
+			}
+			pick := func() []string {
+				var res []string
+				for _, u := range uniq {
+					if rng.Chance(60) {
+						res = append(res, u)
+					}
+				}
+				if len(res) == 0 {
+					res = append(res, PickOne(rng, uniq))
+				}
+				return res
+			}
+			for j := range h.Bindings {
+				if h.Bindings[j].Group == 0 && len(uniq) > 0 && rng.Chance(50) {
+					h.Bindings[j].Snaps = pick()
+				}
+			}
+			for j := range h.KBindings {
+				if h.KBindings[j].Group == 0 && len(uniq) > 0 && rng.Chance(40) {
+					h.KBindings[j].Snaps = pick()
+				}
+				h.KBindings[j].Jq = rng.Chance(50)
+			}
+		}
 		hooks = append(hooks, h)
 	}
 	return hooks
@@ -1213,6 +1380,10 @@ func c04Random(c *Case, rng *Rng, r *Run) {
 	}
 	c.Desc = fmt.Sprintf("operator run: %d hooks, %d schedule + %d kubernetes bindings, layouts main=%d q1=%d", len(hooks), nb, nk, len(p.initial[0]), len(p.initial[1]))
 	c.Nontrivial = len(p.initial[0])+len(p.initial[1]) >= 2
+	if nk > 0 && rng.Chance(50) {
+		p.preObjs = rng.Range(1, 2)
+		c.Note("case:objects-exist-before-startup")
+	}
 	if p.realBo {
 		c.Note("backoff:real-CalculateDelay")
 	} else {
@@ -1321,6 +1492,37 @@ func c04SyncWitness(c *Case, r *Run) {
 	c04Execute(c, r, p)
 }
 
+// What the hook is shown on a retry: kubernetes Event tasks (two objects of one binding with a
+// jqFilter and snapshots, one of a grouped binding), a schedule task with snapshots, Synchronization
+// runs over objects that exist before the start; every run fails twice, then succeeds.
+func c04PayloadWitness(c *Case, r *Run) {
+	hooks := []c04Hook{{Name: "hook01", Num: 1, OnStartup: 1, Queue: 0, KBindings: []c04KBinding{
+		{Name: "k1", EOS: true, Jq: true, Snaps: []string{"k1", "k2"}},
+		{Name: "k2", EOS: true, Group: 1},
+		{Name: "k3", EOS: true, Group: 1, Jq: true},
+	}, Bindings: []c04Binding{
+		{Name: "b1", Crontab: "1 0 1 1 *", Snaps: []string{"k1"}},
+		{Name: "b2", Crontab: "2 0 1 1 *", Group: 1},
+	}}, {Name: "hook02", Num: 2, Queue: 0, Bindings: []c04Binding{{Name: "b4", Crontab: "3 0 1 1 *", AF: true}}}}
+	p := c04Plan{hooks: hooks, boInit: 25 * time.Millisecond, boStep: 5 * time.Millisecond, maxSteps: 60, preObjs: 2,
+		initial: map[int][]c04Ev{0: {{1, 0, false}, {0, 0, true}, {0, 0, true}, {0, 0, false}, {0, 1, true}, {0, 1, false}, {1, 0, false}, {0, 2, true}, {0, 0, true}}}}
+	p.outcome = func(id, failed int) string {
+		if failed < 2 {
+			return "exit"
+		}
+		return "ok"
+	}
+	// an object of k2 and one of k1 appear while the combined Event run waits in its first back-off
+	calls := 0
+	p.boArrivals = func(qn, step int) []c04Ev {
+		if calls++; calls == 1 {
+			return []c04Ev{{0, 1, true}, {0, 0, true}}
+		}
+		return nil
+	}
+	c04Execute(c, r, p)
+}
+
 // Output-file layouts: a task that does not allow failure leaves unparsable output files behind
 // (exit code 0) several times, then good ones; a later task of another hook waits behind it.
 func c04OutWitness(c *Case, r *Run) {
@@ -1354,7 +1556,7 @@ func c04OutWitness(c *Case, r *Run) {
 }
 
 func runC04(r *Run) {
-	r.Rule = "part 1: the real CalculateDelay (8 initial delays x retry counts 0..40, repeated) and the queue's default ExponentialBackoffFn: every observed delay must be a member of the model's set {calcDelay k r | r < 1000}; oracle: initial <= delay <= 32s. part 2: the real operator (NewShellOperator + real metric storages + kube-client/fake + real hook manager, kube events manager, events handler and queues) with 1..3 generated bash hooks (onStartup, 1..3 schedule bindings, in 60% of the cases 1..3 kubernetes bindings on ConfigMaps, each with allowFailure/group, kubernetes ones with executeHookOnSynchronization; queue main or q1) whose every execution blocks at a gate until the harness lets it finish as scripted (ok / exit 1 / unparsable metrics file / unparsable patch file / metric operation that fails validation / patch operation that cannot be applied); startup runs onStartup and Synchronization tasks; then schedule events are fired through ScheduleManager.Ch() and kubernetes events by creating objects in the fake cluster while a run is blocked, so queue layouts of 1..6 tasks (+ up to 4 arriving during runs) with mixed allowFailure values are in the queue when the head is handled; back-off shortened through ExponentialBackoffFn (15..30 ms + 5 ms*failureCount, or the real CalculateDelay for the first failure). Observation per run (taken inside a wrapper of the queue's Handler field and from the hook): queue at handler entry, contexts in the hook's context file, queue at handler return, failure counter, back-off returned, time from the back-off call to the next handler entry. 60% of the failing and half of the successful executions leave GENERATED output files behind (exit code, text of the metrics file, text of the patch file: 1..3 valid metric operations / 1..2 valid patch specs in varied spelling, damaged by one of: truncated, stray closer }/] before the first / between two / after the last document, trailing garbage, wrong type of a field, top level not an object, separator between documents, bad token, operation failing validation, unknown field, patch that cannot be applied, non-zero exit with good files); for these runs the lines carry exit code and file texts and the Lean driver decides from the texts whether the run failed. Fourth wave dimensions: 45% of the v1 hooks have bindings that SHARE A NAME (no name: line = default name of the kind, or one explicit name; ungrouped kubernetes bindings too, also across kinds); 18% of the generated failing outputs end with the hook process TERMINATED BY A SIGNAL (16 signals, after the files are written; exit=sig<n> on the lines), exit codes 1 2 3 64 126 127 128 130 137 143 254 255; in half of the cases the public CancelTaskDelay() of the queue is called 1..2 times in 35% of the runs WHILE THE HOOK IS BLOCKED (worker inside the handler, no wait in progress; cancel line: flags read through VerifWaitFlags) — the back-off of a failure of that run must still last its length (oracle begin). part 3: generated and corpus texts through MetricOperationsFromBytes+ValidateOperations and ParseOperations alone, compared with the model's verdict. Non-trivial: >= 2 tasks in the layouts. distinct = distinct op-line sequences."
+	r.Rule = "part 1: the real CalculateDelay (8 initial delays x retry counts 0..40, repeated) and the queue's default ExponentialBackoffFn: every observed delay must be a member of the model's set {calcDelay k r | r < 1000}; oracle: initial <= delay <= 32s. part 2: the real operator (NewShellOperator + real metric storages + kube-client/fake + real hook manager, kube events manager, events handler and queues) with 1..3 generated bash hooks (onStartup, 1..3 schedule bindings, in 60% of the cases 1..3 kubernetes bindings on ConfigMaps, each with allowFailure/group, kubernetes ones with executeHookOnSynchronization; queue main or q1) whose every execution blocks at a gate until the harness lets it finish as scripted (ok / exit 1 / unparsable metrics file / unparsable patch file / metric operation that fails validation / patch operation that cannot be applied); startup runs onStartup and Synchronization tasks; then schedule events are fired through ScheduleManager.Ch() and kubernetes events by creating objects in the fake cluster while a run is blocked, so queue layouts of 1..6 tasks (+ up to 4 arriving during runs) with mixed allowFailure values are in the queue when the head is handled; back-off shortened through ExponentialBackoffFn (15..30 ms + 5 ms*failureCount, or the real CalculateDelay for the first failure). Observation per run (taken inside a wrapper of the queue's Handler field and from the hook): queue at handler entry, contexts in the hook's context file, queue at handler return, failure counter, back-off returned, time from the back-off call to the next handler entry. 60% of the failing and half of the successful executions leave GENERATED output files behind (exit code, text of the metrics file, text of the patch file: 1..3 valid metric operations / 1..2 valid patch specs in varied spelling, damaged by one of: truncated, stray closer }/] before the first / between two / after the last document, trailing garbage, wrong type of a field, top level not an object, separator between documents, bad token, operation failing validation, unknown field, patch that cannot be applied, non-zero exit with good files); for these runs the lines carry exit code and file texts and the Lean driver decides from the texts whether the run failed. Fourth wave dimensions: 45% of the v1 hooks have bindings that SHARE A NAME (no name: line = default name of the kind, or one explicit name; ungrouped kubernetes bindings too, also across kinds); 18% of the generated failing outputs end with the hook process TERMINATED BY A SIGNAL (16 signals, after the files are written; exit=sig<n> on the lines), exit codes 1 2 3 64 126 127 128 130 137 143 254 255; in half of the cases the public CancelTaskDelay() of the queue is called 1..2 times in 35% of the runs WHILE THE HOOK IS BLOCKED (worker inside the handler, no wait in progress; cancel line: flags read through VerifWaitFlags) — the back-off of a failure of that run must still last its length (oracle begin). Fifth wave dimensions: every hook execution COPIES THE CONTEXT FILE IT RECEIVED; the oracle lines carry per context what it held (pay=<watch event, object+filterResult>/<objects>/<snapshots entries>, interned canonical JSON) and oracle begin compares the retry of a failed run with the failed run itself (Event members identical, objects / snapshot entries a superset, every ungrouped Event context as often); ungrouped schedule (50%) / kubernetes (40%) bindings get includeSnapshotsFrom (subset of the unambiguously named kubernetes bindings of the hook), half of the kubernetes bindings a jqFilter, in half of the cases with kubernetes bindings 1..2 objects per binding exist before the operator starts. part 3: generated and corpus texts through MetricOperationsFromBytes+ValidateOperations and ParseOperations alone, compared with the model's verdict. Non-trivial: >= 2 tasks in the layouts. distinct = distinct op-line sequences."
 	r.CaseTimeout = 300 * time.Second
 	r.One(0, func(c *Case, _ *Rng) { c04Delays(c, r) })
 	r.One(1, func(c *Case, _ *Rng) {
@@ -1393,6 +1595,11 @@ func runC04(r *Run) {
 		c.Desc = "corpus: hook process terminated by SIGKILL / SIGTERM / SIGSEGV (ExitCode() = -1), then exit 255, then success; a task of another hook waits behind; CancelTaskDelay() during every other run"
 		c.Nontrivial = true
 		c04KillWitness(c, r)
+	})
+	r.One(3000000, func(c *Case, _ *Rng) {
+		c.Desc = "corpus: what the hook is shown on a retry — Event tasks (jqFilter, snapshots, grouped), schedule with snapshots, Synchronization over existing objects; every run fails twice"
+		c.Nontrivial = true
+		c04PayloadWitness(c, r)
 	})
 	r.Cases(10, r.N(120, 1000), 0, func(c *Case, rng *Rng) { c04Random(c, rng, r) })
 	if r.Thorough() {
@@ -1461,6 +1668,46 @@ func runC04(r *Run) {
 		})
 		r.Exhaust = true
 		r.Extra["exhaustive_scope"] = fmt.Sprintf("all %d scripts: layouts of 1..3 schedule tasks over 2 hooks x allowFailure, every task failing 0..2 times, x (bindings with unique names | both bindings of a hook unnamed)", len(cfgs))
+		// exhaustive small scope 2: what the hook is shown on the retry of kubernetes Event tasks —
+		// jqFilter x includeSnapshotsFrom x grouped x objects before the start x second event of the same / another binding x 1..2 failures
+		r.Cases(4000000, 64, 0, func(c *Case, _ *Rng) {
+			m := c.Idx - 4000000
+			bit := func(i int) bool { return m>>i&1 == 1 }
+			k1 := c04KBinding{Name: "k1", EOS: true, Jq: bit(0)}
+			if bit(1) {
+				k1.Snaps = []string{"k1", "k2"}
+			}
+			if bit(2) {
+				k1.Group = 1
+			}
+			hooks := []c04Hook{
+				{Name: "hook01", Num: 1, Queue: 1, KBindings: []c04KBinding{k1, {Name: "k2", EOS: true}}},
+				{Name: "hook02", Num: 2, Queue: 1, Bindings: []c04Binding{{Name: "b4", Crontab: "3 0 1 1 *", AF: true}}},
+			}
+			second := c04Ev{0, 0, true}
+			if bit(4) {
+				second = c04Ev{0, 1, true}
+			}
+			fails := 1
+			if bit(5) {
+				fails = 2
+			}
+			p := c04Plan{hooks: hooks, boInit: 15 * time.Millisecond, boStep: 5 * time.Millisecond, maxSteps: 30,
+				initial: map[int][]c04Ev{1: {{1, 0, false}, {0, 0, true}, second, {1, 0, false}}}}
+			if bit(3) {
+				p.preObjs = 1
+			}
+			p.outcome = func(id, failed int) string {
+				if failed < fails {
+					return "exit"
+				}
+				return "ok"
+			}
+			c.Desc = fmt.Sprintf("exhaustive payload scope: jq=%v snaps=%v grouped=%v pre=%v second-of-other-binding=%v fails=%d", bit(0), bit(1), bit(2), bit(3), bit(4), fails)
+			c.Nontrivial = true
+			c04Execute(c, r, p)
+		})
+		r.Extra["exhaustive_scope_payload"] = "all 64 scripts: two kubernetes Event tasks (same / another binding) of one hook behind a gate run, binding with jqFilter x includeSnapshotsFrom x group x objects existing before the start, every run failing 1..2 times"
 		// the default back-off once (5 s)
 		r.One(2000000, func(c *Case, _ *Rng) {
 			c.Desc = "default ExponentialBackoffFn (5 s initial delay), one failure then success"
